@@ -25,15 +25,15 @@ RULE = ("universe of 4-8 objects (1-3 Workflows, 0-3 empty Macros, leaves; label
         "(composite/None/non-composite), remove_child by instance/label, replace_child by instance/label, "
         "marking starting nodes; ~75% of the operations are biased towards being applicable, the rest is "
         "arbitrary (clashes, second parents, cycles, workflows as children, reserved names); a history is abandoned "
-        "at the first operation after which the property fails on the implementation. Non-trivial = some "
+        "at the first operation after which the property fails on the implementation (never, on the repaired code). Non-trivial = some "
         "operation changed the ownership state; distinct = distinct (universe, history)")
 TRUSTED = ["dir(composite) restricted to the label pool is passed to the model as its `reserved` table",
            "replace_child is exercised on unconnected nodes only (copy_io / value links have nothing to do)"]
 ASSUMPTIONS = ["labels are assigned only through adoption (no direct `child.label = x` on an owned child); "
                "children/starting_nodes containers are not edited directly except appending a current child to "
                "starting_nodes; nodes are unconnected; no pickling (detached paths stay None)"]
-FUEL = 12      # nesting of set_parent/add_child/remove_child calls (the code needs <= 5)
-PFUEL = 40     # path recursion / suffix search bound (universe has <= 8 objects)
+FUEL = 12      # nesting of set_parent/add_child/remove_child calls (the theorems need >= 4)
+PFUEL = 40     # ancestor walk / suffix search / lexical_path bound (universe has <= 8 objects)
 
 
 # ---- node classes of the harness (module level: the library reads their source) -----------
@@ -453,90 +453,10 @@ def oracle(case, obs):
     return f"{sig}: step {t} {json.dumps(op)} -> {obs[t][0] if t >= 1 else ''}; {detail}"
 
 
-# ---- known findings: cause predicates over (state before the failing step, operation) --------
-def _pre(obs, t):
-    return obs[0] if t == 1 else obs[t - 1][1]
-
-
-def _dir_has(nodes, pre, q, l):
-    return _in_dir(nodes[q][0], l) or any(k == l for k, _ in pre[q][2])
-
-
-def _unique_label(nodes, pre, p, l, strict):
-    """what _get_unique_label would answer in the state `pre` (None = refuses)"""
-    if not _dir_has(nodes, pre, p, l):
-        return l
-    if l not in [pre[c][0] for _, c in pre[p][2]] or strict:
-        return None
-    i, new = 0, l
-    while _dir_has(nodes, pre, p, new):
-        new = f"{l}{i}"
-        i += 1
-    return new
-
-
-def cause(case, obs, t):
-    """the finding (if any) whose cause predicate holds of operation t in its pre-state;
-    the same predicates guard the _partial theorems (Lex.risky)"""
-    nodes = case["nodes"]
-    op, pre, res = case["ops"][t - 1], _pre(obs, t), obs[t][0]
-    is_comp = lambda i: nodes[i][0] != "L"
-    is_wf = lambda i: nodes[i][0] == "W"
-    k = op[0]
-    # K1: c.parent = q where q is not yet c's parent and already has an attribute/child called like c
-    pa = None
-    if k == "parent" and op[2] is not None:
-        pa = (op[1], op[2])
-    if k == "setattr" and is_comp(op[1]) and is_comp(op[3]) and op[2] == "parent":
-        pa = (op[1], op[3])
-    if pa is not None:
-        c, q = pa
-        if not is_wf(c) and pre[c][1] != q and _dir_has(nodes, pre, q, pre[c][0]) and res in ("AttributeError", "KeyError"):
-            return "K1-parent-assignment-refused-by-new-parent"
-        return None
-    # K2: a workflow is offered as a child
-    offered = None
-    if k == "add":
-        offered = op[2]
-    elif k == "setattr":
-        offered = op[3]
-    elif k in ("rpi", "rpl"):
-        offered = op[3]
-    if offered is not None and is_wf(offered) and res == "ParentMostError":
-        return "K2-workflow-offered-as-child"
-    p = op[1]
-    if k in ("rpi", "rpl") and is_comp(p) and res == "CyclicPathError":
-        # K3: replacement is the composite, one of its ancestors (path prefix), or takes a label equal to the
-        # label of the composite's root
-        r = op[3]
-        o = op[2] if k == "rpi" else next((c for kk, c in pre[p][2] if kk == op[2]), None)
-        if o is None:
-            return None
-        pp, pr = pre[p][4], pre[r][4]
-        if r == p or pp.startswith(pr + "/") or pp.startswith("/" + pre[o][0] + "/"):
-            return "K3-replace-refused-after-removal"
-        return None
-    if k in ("add", "setattr") and is_comp(p) and res == "CyclicPathError":
-        # K4: an orphan is re-labelled on adoption to the label of the adopting composite's root
-        c = offered
-        if k == "add":
-            l = pre[c][0] if op[3] is None else op[3]
-            strict = nodes[p][2] if op[4] is None else op[4]
-        else:
-            l, strict = op[2], nodes[p][2]
-        if pre[c][1] != -1:
-            return None
-        l2 = _unique_label(nodes, pre, p, l, strict)
-        if l2 is not None and pre[p][4].startswith("/" + l2 + "/"):
-            return "K4-cyclic-false-positive-after-relabel"
-    return None
-
-
+# ---- known findings: none (K1..K4 of the first round are repaired by fix commits; their
+# witnesses are regression cases in corpus/C13/) ------------------------------------------------
 def known(case, obs, verdict):
-    f = first_failure(case, obs)
-    if f is None or f[0] < 1:
-        return None
-    return cause(case, obs, f[0])
+    return None
 
 
 # ---- bookkeeping -------------------------------------------------------------------------------
